@@ -1080,5 +1080,68 @@ class TwoEditionsOfTheTypeModule(object):
         return 'edition-%d' % compiled_edition, vs, 3
 
 
+class FullWidthHexDefaults(object):
+    name = 'full-width-hex-and-binary-defaults'
+    describe = ('hex and binary DEFVALs of exactly 32 bits and around (7FFFFFFF, 80000000, c0000000, FFFFFFFF, 0FFFFFFFF, 100000000, 64 '
+                'ones, 32 ones in binary) on Unsigned32, Gauge32, TimeTicks, Counter64 and on a TEXTUAL-CONVENTION over Unsigned32 '
+                'declared locally and in another module: the default is the unsigned number the literal spells, both back ends')
+
+    LITS = ["'7FFFFFFF'h", "'80000000'h", "'c0000000'H", "'FFFFFFFF'h", "'0FFFFFFFF'h", "'100000000'h", "'FFFFFFFFFFFFFFFF'H",
+            "'" + '1' * 32 + "'B", "'" + '1' + '0' * 31 + "'b"]
+    BASES = ['Unsigned32', 'Gauge32', 'TimeTicks', 'Counter64', 'LocalMask', 'RemoteMask']
+
+    def blocks(self, tier):
+        return [{'base': b} for b in self.BASES]
+
+    def cases(self, block, tier):
+        for i, lit in enumerate(self.LITS):
+            val = int(lit[1:-2], 16 if lit[-1] in 'hH' else 2)
+            if val >= 2 ** 32 and block['base'] != 'Counter64':
+                continue
+            yield {'base': block['base'], 'lit': i}
+
+    def run_case(self, case):
+        lit = self.LITS[case['lit']]
+        val = int(lit[1:-2], 16 if lit[-1] in 'hH' else 2)
+        remote = ('REMOTE-TC DEFINITIONS ::= BEGIN\nIMPORTS Unsigned32 FROM SNMPv2-SMI TEXTUAL-CONVENTION FROM SNMPv2-TC;\n'
+                  'RemoteMask ::= TEXTUAL-CONVENTION STATUS current DESCRIPTION "d" SYNTAX Unsigned32\nEND\n')
+        text = ('TEST-MIB DEFINITIONS ::= BEGIN\nIMPORTS OBJECT-TYPE, Unsigned32, Gauge32, TimeTicks, Counter64, enterprises FROM SNMPv2-SMI '
+                'TEXTUAL-CONVENTION FROM SNMPv2-TC RemoteMask FROM REMOTE-TC;\n'
+                'LocalMask ::= TEXTUAL-CONVENTION STATUS current DESCRIPTION "d" SYNTAX Unsigned32\n'
+                'subject OBJECT-TYPE SYNTAX %s MAX-ACCESS read-only STATUS current DESCRIPTION "d" DEFVAL { %s } ::= { enterprises 1 }\nEND\n'
+                % (case['base'], lit))
+        sig = 'C05|full-width-literal|%s|%s' % (case['base'], 'hex' if lit[-1] in 'hH' else 'binary')
+        vs = []
+        for backend in ('json', 'pysnmp'):
+            parser = env.shared_parser('smiV2')
+            parser.reset()
+            res, written = env.compile_set({'TEST-MIB': text, 'REMOTE-TC': remote}, ['TEST-MIB'], codegen=backend, dialect=parser)
+            if res.get('TEST-MIB') != 'compiled':
+                vs.append(('%s|%s|not-compiled' % (sig, backend), '%r\n%s' % (getattr(res.get('TEST-MIB'), 'error', None), text)))
+                continue
+            if backend == 'json':
+                d = (json.loads(written['TEST-MIB']).get('subject', {}).get('default') or {}).get('default') or {}
+                got = d.get('value')
+                if d.get('format') == 'hex':
+                    got = int(got, 16)
+                elif d.get('format') == 'bin':
+                    got = int(got, 2)
+                if d.get('format') not in ('decimal', 'hex', 'bin') or got != val:
+                    vs.append(('%s|json|default-differs' % sig, 'DEFVAL { %s } is %d, document says %r' % (lit, val, d)))
+            else:
+                b = pysnmp_rec.RecBuilder()
+                err = None
+                for m in ('REMOTE-TC', 'TEST-MIB'):
+                    if m in written and not err:
+                        ns, err = pysnmp_rec.run_module(written[m], b)
+                if err:
+                    vs.append(('%s|pysnmp|does-not-execute|%s' % (sig, err.split(':')[0]), err[:300]))
+                    continue
+                got = pysnmp_denotation(pysnmp_rec.syntax_of(ns.get('subject')), 'int', None)
+                if got != ('int', val):
+                    vs.append(('%s|pysnmp|default-differs' % sig, 'DEFVAL { %s } is %d, executed class gives %r' % (lit, val, got)))
+        return 'ok' if not vs else 'bad', vs, 2
+
+
 FAMILIES = [Refinements(), Defaults(), SameNamedTypes(), RefinedChains(), ShoutedNames(), DefaultsFromFiles(), ImportedNamesakes(),
-            OddRefinementsWithDefaults(), LongChains(), AfterAFailedModule(), TwoEditionsOfTheTypeModule()]
+            OddRefinementsWithDefaults(), LongChains(), AfterAFailedModule(), TwoEditionsOfTheTypeModule(), FullWidthHexDefaults()]
